@@ -57,7 +57,7 @@ theorem revalidate_ctx (c : Conn) : CtxSame c c.revalidate.1 := by
   split
   · split
     · exact CtxSame.refl c
-    · exact ctxSame_of_eq rfl rfl
+    · split <;> exact ctxSame_of_eq rfl rfl
   · exact CtxSame.refl c
 
 theorem connProp_ctx (c : Conn) : CtxSame c c.connProp.1 := by
